@@ -34,6 +34,11 @@ func catalogue(sc *issuer.Scenario, rng *rand.Rand) []issuer.Mut {
 		}},
 		{"never-issued-claim-with-other-claims-proof", "reject", func(p *issuer.ProofJ, e *issuer.Env) { p.CoreClaim = issuer.S(altHex) }},
 		{"claim-unrelated", "reject", func(p *issuer.ProofJ, e *issuer.Env) { p.CoreClaim = issuer.S(unrelHex) }},
+		{"proof-of-other-credential", "reject", func(p *issuer.ProofJ, e *issuer.Env) {
+			// a completely valid proof, of another credential of the same issuer: only the
+			// claim/credential binding stands in the way
+			p.CoreClaim, p.MTP = issuer.S(unrelHex), sc.UnrelatedProof.Clone()
+		}},
 		{"claim-removed", "reject", func(p *issuer.ProofJ, e *issuer.Env) { p.CoreClaim = nil }},
 		{"claim-malformed", "reject", func(p *issuer.ProofJ, e *issuer.Env) { p.CoreClaim = issuer.S((*p.CoreClaim)[:64]) }},
 		// ---- proof from another tree (the escalating attack of D5)
@@ -75,7 +80,7 @@ func Scenarios(cfg *common.Config) []issuer.Params {
 	pubs := []*bool{issuer.BP(false), nil, issuer.BP(true)}
 	n := cfg.Pick(12, 60)
 	for i := 0; i < n; i++ {
-		p := issuer.Params{NClaims: sizes[i%len(sizes)], NRevoked: []int{0, 3}[i%2], OmitZero: i%2 == 1,
+		p := issuer.Params{NClaims: sizes[i%len(sizes)], NRevoked: []int{0, 3, 0}[i%3], OmitZero: i%2 == 1,
 			RootPos: []string{"index", "value"}[(i/2)%2], Updatable: i%5 == 0}
 		if cfg.Thorough() && i >= len(sizes) {
 			p.NClaims = rng.Intn(200)
